@@ -166,7 +166,10 @@ def scope_sqlite(prog, rep, methods=None, rule="SCOPE"):
 
 
 def _is_bucket_key(e, fi, bp):
-    """self.bucket_keys[<bucket param>]"""
+    """self.bucket_keys[<bucket param>] (possibly held in a single-assignment local)"""
+    from .trace import resolve
+
+    e = resolve(e, fi)
     return isinstance(e, ast.Subscript) and norm(e.value) == "self.bucket_keys" and is_param_ref(e.slice, fi, bp)
 
 
@@ -294,6 +297,8 @@ def scope_peewee(prog, rep, methods=None, rule="SCOPE"):
     n_save = 0
     for fi in cls.methods.values():
         if methods is not None and fi.name not in methods and not fi.name.startswith("_"):
+            continue
+        if prog.is_inlined_helper(fi):
             continue
         bp = bparam(fi)
         rep.unit("functions", fi.qname)
@@ -457,7 +462,7 @@ def scope_memory(prog, rep, methods=None, rule="SCOPE"):
     n_sites = 0
     containers = memory_containers(prog)
     for fi in cls.methods.values():
-        if fi.name == "__init__":
+        if fi.name == "__init__" or prog.is_inlined_helper(fi):
             continue
         if methods is not None and fi.name not in methods and not fi.name.startswith("_"):
             continue
@@ -637,13 +642,38 @@ def addr_rule(prog, rep, rule="ADDR"):
         conds = []
         for n in walk_with_nested_exprs(fi.node):
             if isinstance(n, ast.comprehension):
-                conds += [norm(c) for c in n.ifs]
-        ok = any(c in ("event.id == event_id", "event_id == event.id", "e.id == event_id") for c in conds)
-        rep.check(ok, rule, fi.short, "selection", f"filtered by {conds}", f"target not selected by `event.id == event_id` (conditions: {conds})", fi.loc())
+                conds += [c for c in n.ifs]
+        ok = any(_is_id_test(c) for c in conds)
+        if not ok:
+            # loop form: the statement that removes / returns / overwrites the element is reached only through
+            # an edge asserting <element>.id == event_id
+            g = cfg_of(fi)
+            acts = []
+            for n in walk_own(fi.node):
+                if m == "delete" and isinstance(n, ast.Call) and isinstance(n.func, ast.Attribute) and n.func.attr in ("pop", "remove") :
+                    acts.append(n)
+                if m == "delete" and isinstance(n, ast.Delete):
+                    acts.append(n)
+                if m == "replace" and isinstance(n, ast.Assign) and isinstance(n.targets[0], ast.Subscript) and isinstance(n.targets[0].value, (ast.Subscript, ast.Name)):
+                    acts.append(n)
+                if m == "_get_event" and isinstance(n, ast.Return) and n.value is not None and not (isinstance(n.value, ast.Constant) and n.value.value is None):
+                    acts.append(n)
+            if acts:
+                reach = g.reach_filtered(g.entry, lambda u, v, lab: not (bool(lab) and lab[0] == "cond" and lab[2] is True and _is_id_test(lab[1])) and not (bool(lab) and lab[0] == "cond" and lab[2] is False and _is_id_test(lab[1], negated=True)))
+                ok = all(g.node_of(a) not in reach for a in acts)
+        rep.check(ok, rule, fi.short, "selection", "target selected by `<element>.id == event_id`", f"target not selected by `event.id == event_id` (conditions: {[norm(c) for c in conds]})", fi.loc())
     fi = mcls.methods["get_event"]
     cs = [c for c in walk_own(fi.node) if isinstance(c, ast.Call) and norm(c.func) == "self._get_event"]
     ok = len(cs) == 1 and len(cs[0].args) == 2 and is_param_ref(cs[0].args[1], fi, "event_id")
     rep.check(ok, rule, fi.short, "self._get_event(bucket, event_id)", "looks up the id it was given", "does not look up the event id it was given", fi.loc())
+
+
+def _is_id_test(c, negated=False):
+    """`<x>.id == event_id` (either order); negated: `<x>.id != event_id`"""
+    if isinstance(c, ast.Compare) and len(c.ops) == 1 and isinstance(c.ops[0], ast.NotEq if negated else ast.Eq):
+        a, b = norm(c.left), norm(c.comparators[0])
+        return (a == "event_id" and b.endswith(".id")) or (b == "event_id" and a.endswith(".id"))
+    return False
 
 
 # ---------------------------------------------------------------------------
@@ -715,8 +745,16 @@ def upsert_rule(prog, rep, rule="UPSERT"):
         rep.undecided(rule, "SqliteStorage.insert_many", "INSERT", f"{len(s)} INSERT statements")
     # inherited loop
     fi = prog.func("AbstractStorage.insert_many")
+    from .trace import resolve
+
     loops = [l for l in walk_own(fi.node) if isinstance(l, ast.For)]
-    ok = len(loops) == 1 and is_param_ref(loops[0].iter, fi, "events") and len(loops[0].body) == 1 and isinstance(loops[0].body[0], ast.Expr) and norm(loops[0].body[0].value) == f"self.insert_one({bparam(fi)}, {norm(loops[0].target)})"
+    ok = False
+    if len(loops) == 1 and is_param_ref(loops[0].iter, fi, "events") and isinstance(loops[0].target, ast.Name):
+        body = [x for x in loops[0].body if not (isinstance(x, ast.Expr) and isinstance(x.value, ast.Constant))]
+        if len(body) == 1 and isinstance(body[0], ast.Expr) and isinstance(body[0].value, ast.Call):
+            c = body[0].value
+            callee = resolve(c.func, fi) if isinstance(c.func, ast.Name) else c.func
+            ok = norm(callee) == "self.insert_one" and [norm(a) for a in c.args] == [bparam(fi), loops[0].target.id] and not c.keywords
     rep.check(ok, rule, fi.short, "loop", "every element is inserted once, in order", "the inherited insert_many does not pass every element to insert_one exactly once", fi.loc())
     mfi = prog.func("MemoryStorage.insert_one")
     # memory insert_one: id-bearing -> replace, else append
